@@ -28,5 +28,7 @@ WF2 == {[t \in Threads |-> IF t = 1 THEN a ELSE <<K("waitFor")>>] : a \in P1 \cu
 \* two processing calls that overlap without nesting + an observer (S51); processOne with two events queued, the rest taken by somebody else (S76)
 SOverlap == {[t \in Threads |-> IF t = 1 THEN <<Enq(1), Enq(2), K("processOne"), K("empty")>> ELSE <<K("processOne")>>]}
 SLastOnly == {[t \in Threads |-> IF t = 1 THEN <<Enq(1), Enq(2), K("processOne")>> ELSE <<K("take"), K("empty")>>]}
+\* DisableQueueNotify objects of two threads coming and going, then an event and a waitFor that must see it (S111)
+STwoDqn == {[t \in Threads |-> IF t = 1 THEN <<K("dqn_on"), K("dqn_off")>> ELSE <<K("dqn_on"), K("dqn_off"), Enq(1), K("waitFor")>>]}
 SPutBack == {[t \in Threads |-> IF t = 1 THEN <<Enq(2), Enq(3)>> ELSE <<K("processIf"), K("process")>>]}
 ====
